@@ -15,7 +15,8 @@ from aiocoap import Message, resource, error
 
 PROP = "C04"
 LEVEL = "model_checking"
-RULE = ("E3: BFS over all event sequences up to depth D (inject copy of key k in {(P1,m),(P2,m),(P3,m),(P1,m+1)}, fire next "
+RULE = ("E3: BFS over all event sequences up to depth D (inject copy of key k in {(P1,m),(P2,m),(P3,m),(P1,m+1)} or, for slow handlers, of a "
+        "fast request (P1,m+2) on the token of (P1,m), fire next "
         "timer, jump to first arrival + EXCHANGE_LIFETIME -/+ 1 ms, ACK the separate response) per (handler kind, CON/NON, "
         "server initial MID) scenario, dedup on model + dedup table + piggyback table + timers + handler counters")
 ASSUMPTIONS = [
@@ -29,7 +30,9 @@ P1 = ("2001:db8::1", 40001)
 P2 = ("2001:db8::1", 40002)   # same IP, other port
 P3 = ("2001:db8::3", 40001)   # other IP, same port
 M = 0x4000
-KEYS = [(P1, M), (P2, M), (P3, M), (P1, M + 1)]
+KEYS = [(P1, M), (P2, M), (P3, M), (P1, M + 1), (P1, M + 2)]
+# the fifth key re-uses the token of the first one (new message ID) and always asks the fast resource: a request that supersedes
+# one still in its (slow) handler.  Only offered where the scenario's handler is slow.
 LIFETIME = 2.0 * (2 ** 4 - 1) * 1.5 + (2 * 100.0 + 2.0)   # MAX_TRANSMIT_SPAN + MAX_RTT = 247 s
 EPS = 0.001
 KINDS = ("fast", "slow", "fail", "supp", "slowfail")
@@ -88,16 +91,18 @@ def build_world(kind, con, mid0):
 def request_bytes(st, key):
     peer, mid = key
     path = {"supp": b"fast"}.get(st.kind, st.kind.encode())
+    if KEYS.index(key) == 4:
+        path = b"fast"
     opts = [(11, path)]
     if st.kind == "supp":
         opts.append((258, b"\x1a"))
-    tok = bytes([0x70 + KEYS.index(key)])
+    tok = bytes([0x70 + (KEYS.index(key) % 4)])
     return rc.encode((rc.CON if st.con else rc.NON, 1, mid, tok, opts, b""))
 
 
 def events_of(st):
     w = st.world
-    evs = [("copy", i) for i in range(len(KEYS))]
+    evs = [("copy", i) for i in range(len(KEYS) if st.kind in ("slow", "slowfail") else 4)]
     if w.loop.next_timer() is not None:
         evs.append(("timer",))
     live = [m for m in st.model.values() if m["first"] + LIFETIME > w.loop.time()]
